@@ -19,13 +19,9 @@ class Handler:
         self._read()
 
     def _guards(self, n):
-        out = []
-        cur, child = getattr(n, "_parent", None), n
-        while cur is not None and cur is not self.fn:
-            if isinstance(cur, ast.If):
-                out.append(norm(cur.test) if child in cur.body else f"not ({norm(cur.test)})")
-            child, cur = cur, getattr(cur, "_parent", None)
-        return " and ".join(reversed(out))
+        """Path conditions (astq.conds: nesting, guard clauses and polarity normalised), joined by ' && '."""
+        from .astq import conds
+        return " && ".join(conds(n, self.fn))
 
     def _read(self):
         for n in walk_local(self.fn):
@@ -169,11 +165,10 @@ class Collector:
                 if setname != "assigned":
                     continue
                 # the bound name is never None here: a guard `<expr> is None` / `not (<expr> is not None)` means "not recorded"
-                g = guard.replace(" ", "")
-                e = expr.replace(" ", "")
-                if f"{e}isNone" in g or f"not({e}isnotNone)" in g:
+                lits = set(guard.split(" && ")) if guard else set()
+                if f"{expr} is None" in lits or f"not {expr}" in lits:
                     continue
-                if tcls == "Name" and "isinstance(node.ctx, ast.Load)" in guard and not guard.startswith("not ("):
+                if tcls == "Name" and "isinstance(node.ctx, ast.Load)" in lits:
                     continue         # the Load branch
                 recorded = True
                 via = f"{h.name}: self.assigned.add({expr})"
